@@ -42,6 +42,9 @@ func progSetup(env *fw.Env) error {
 	return os.WriteFile(filepath.Join(dir, "go.mod"), []byte(gomod), 0o644)
 }
 
+// progMainName is what func main is renamed to (a name no generated or corpus program declares).
+const progMainName = "VerifProgMain__"
+
 var (
 	rePkgMain  = regexp.MustCompile(`(?m)^package main\b`)
 	reFuncMain = regexp.MustCompile(`(?m)^func main\(\)`)
@@ -55,7 +58,7 @@ func progAsLibrary(name, src string) string {
 	f, err := goparser.ParseFile(fset, "x.go", src, goparser.SkipObjectResolution)
 	if err != nil || f.Name.Name != "main" {
 		src = rePkgMain.ReplaceAllString(src, "package "+name)
-		return reFuncMain.ReplaceAllString(src, "func Main()")
+		return reFuncMain.ReplaceAllString(src, "func "+progMainName+"()")
 	}
 	type edit struct {
 		off, n int
@@ -64,7 +67,7 @@ func progAsLibrary(name, src string) string {
 	eds := []edit{{fset.Position(f.Name.Pos()).Offset, 4, name}}
 	for _, d := range f.Decls {
 		if fd, ok := d.(*goast.FuncDecl); ok && fd.Recv == nil && fd.Name.Name == "main" {
-			eds = append(eds, edit{fset.Position(fd.Name.Pos()).Offset, 4, "Main"})
+			eds = append(eds, edit{fset.Position(fd.Name.Pos()).Offset, 4, progMainName})
 		}
 	}
 	sort.Slice(eds, func(i, j int) bool { return eds[i].off > eds[j].off })
@@ -205,7 +208,7 @@ func progBuild(env *fw.Env, link bool) (failed map[string]string, err error) {
 	}
 	b.WriteString(")\n\nfunc main() {\n\tswitch os.Args[1] {\n")
 	for _, n := range names {
-		fmt.Fprintf(&b, "\tcase %q:\n\t\t%s.Main()\n", n, n)
+		fmt.Fprintf(&b, "\tcase %q:\n\t\t%s.%s()\n", n, n, progMainName)
 	}
 	b.WriteString("\tdefault:\n\t\tos.Exit(97)\n\t}\n}\n")
 	os.MkdirAll(filepath.Join(dir, "disp"), 0o755)
